@@ -161,12 +161,27 @@ def word_values(word, types=None):
     return out
 
 
-def word_doc(word, ns="urn:t", qualified=True, types=None):
+def word_doc(word, ns="urn:t", qualified=True, types=None, root="r"):
     vals = word_values(word, types)
     if ns:
         kids = "".join(f"<t:{n}>{v}</t:{n}>" if qualified else f"<{n}>{v}</{n}>" for n, v in zip(word, vals))
-        return f'<t:r xmlns:t="{ns}">{kids}</t:r>'
-    return "<r>" + "".join(f"<{n}>{v}</{n}>" for n, v in zip(word, vals)) + "</r>"
+        return f'<t:{root} xmlns:t="{ns}">{kids}</t:{root}>'
+    return f"<{root}>" + "".join(f"<{n}>{v}</{n}>" for n, v in zip(word, vals)) + f"</{root}>"
+
+
+def group_refs_xsd(group, refs, ns="urn:t", types=None):
+    """One named model group (`group`: a seq/choice particle, written with occurrence 1..1) referenced
+    from the complex types of the global elements r0, r1, ... with the occurrence ranges `refs`
+    (even indexes: the reference is the whole content; odd indexes: inside an xs:sequence)."""
+    full = particle_xsd(group, ns=ns, types=types)
+    head, rest = full.split(' <xs:element name="r">', 1)
+    body = rest.split("<xs:complexType>\n", 1)[1].rsplit("  </xs:complexType>", 1)[0]
+    out = head + f' <xs:group name="g">\n{body} </xs:group>\n'
+    for i, (mn, mx) in enumerate(refs):
+        ref = f'<xs:group ref="g"{occ_attrs(mn, mx)}/>'
+        inner = ref if i % 2 == 0 else f"<xs:sequence>{ref}</xs:sequence>"
+        out += f' <xs:element name="r{i}"><xs:complexType>{inner}</xs:complexType></xs:element>\n'
+    return out + "</xs:schema>\n"
 
 
 # --------------------------------------------------------------------------
